@@ -723,6 +723,7 @@ func render(b *strings.Builder, n *Node, inClass bool) {
 type Features struct {
 	Class, Quant, Lazy, Group, NCGroup, Alt, Anchor, WordB, Escape, Dot, ClassEsc, NegClass, Range, EmptyClass bool
 	Space                                                                                                      bool // \s \S
+	FoldPair                                                                                                   bool // see FoldPairHazard
 	ZeroPadQuant                                                                                               bool // {01}
 	// the two structural ES5-vs-RE2 classes (DESIGN C10): a capture inside a group quantified with
 	// max > 1, and a nullable body under a quantifier with max > 1 or unbounded
@@ -800,12 +801,91 @@ func Analyse(root *Node) Features {
 		}
 	}
 	walk(root)
+	f.FoldPair = FoldPairHazard(root)
 	for _, b := range []bool{f.Class, f.Quant, f.Group || f.NCGroup, f.Alt, f.Anchor || f.WordB, f.Escape} {
 		if b {
 			f.Constructs++
 		}
 	}
 	return f
+}
+
+// classMembers returns the members of a non-negated class made only of characters and short ranges
+// (ok=false for class escapes, negation or more than 64 members).
+func classMembers(n *Node) (set map[uint16]bool, ok bool) {
+	if n.Neg {
+		return nil, false
+	}
+	set = map[uint16]bool{}
+	for _, it := range n.Items {
+		if it.Lo.Kind != KChar {
+			return nil, false
+		}
+		hi := it.Lo.Ch
+		if it.Range {
+			hi = it.Hi.Ch
+		}
+		if int(hi)-int(it.Lo.Ch) > 64 {
+			return nil, false
+		}
+		for c := int(it.Lo.Ch); c <= int(hi); c++ {
+			set[uint16(c)] = true
+		}
+		if len(set) > 64 {
+			return nil, false
+		}
+	}
+	return set, true
+}
+
+// FoldPairHazard reports the static shape that triggers a defect of Go's regexp/syntax (seen with
+// go1.23): a class that is exactly the two cases of one letter ([aA]) is parsed as a case-folded
+// literal, and the prefix factoring of alternations then treats it as equal to the plain literal
+// (A|[aA]b becomes A(?:|b)). The predicate is: the pattern has an alternation, such a class, and the
+// same letter (either case) as a literal or one-member class somewhere.
+func FoldPairHazard(root *Node) bool {
+	alt := false
+	pairs := map[uint16]bool{} // both cases of every fold-pair class
+	lits := map[uint16]bool{}
+	var walk func(n *Node)
+	walk = func(n *Node) {
+		switch n.Kind {
+		case KAlt:
+			alt = true
+		case KChar:
+			lits[n.Ch] = true
+		case KClass:
+			if set, ok := classMembers(n); ok {
+				switch len(set) {
+				case 1:
+					for c := range set {
+						lits[c] = true
+					}
+				case 2:
+					var m []uint16
+					for c := range set {
+						m = append(m, c)
+					}
+					if Canonicalize(m[0], true) == Canonicalize(m[1], true) {
+						pairs[m[0]], pairs[m[1]] = true, true
+					}
+				}
+			}
+		}
+		for _, k := range n.Kids {
+			walk(k)
+		}
+	}
+	walk(root)
+	if !alt {
+		return false
+	}
+	for c := range pairs {
+		if lits[c] {
+			return true
+		}
+	}
+	return false
 }
 
 // Nullable reports whether the node can match the empty string.
